@@ -16,15 +16,21 @@
                                c = [outputs[n*2 + n*i : n*2 + n*(i+1)] for i in range(d)]
      Jansen:   mu_a = mean(a); var = sum([(v - mu_a)**2 for v in a]) / (len(a) - 1)
                [sum((a - c[i])**2) / (2 * n * var)]
-     Homma:    [(var - (1/n) * sum(a * c[i]) + mu_a**2) / var]
+     Homma:    mu_a = mean(a); var = sum([(v - mu_a)**2 for v in a]) / len(a)
+               [(var - (1/n) * sum(a * c[i]) + mu_a**2) / var]
      Janon:    mu_ac[i] = (1/n) * sum(a + c[i]) / 2
                var[i]   = (1/n) * sum(a**2 + c[i]**2) / 2 - mu_ac[i]**2
                [1 - ((1/n) * sum(a * c[i]) - mu_ac[i]**2) / var[i]]
                (before the fix "Janon estimator normalises the second moment by 1/N as published" the code had
                 var[i] = (1/(n - 1)) * sum(...) / 2 - mu_ac[i]**2: kept below as [janon_orig], record of the defect)
      Glen:     mu_a = mean(a); mu_c[i] = mean(c[i]); var_a = np.var(a); var_c[i] = np.var(c[i])   (population)
-               [1 - (1/(n - 1) * sum((a - mu_a) * (c[i] - mu_c[i])) / (var_a * var_c[i])**0.5)]
-     Saltelli: [1 - ((1/n) * sum(a * c[i]) - mu_a**2) / var]
+               [1 - (1/n * sum((a - mu_a) * (c[i] - mu_c[i])) / (var_a * var_c[i])**0.5)]
+     Saltelli: mu_a = mean(a); var = sum([(v - mu_a)**2 for v in a]) / len(a)
+               [1 - ((1/n) * sum(a * c[i]) - mu_a**2) / var]
+     (before the fixes "Homma and Saltelli estimators use the same 1/N normalisation for the variance as for the other
+      moments" and "Glen estimator normalises the covariance like the variances" Homma / Saltelli divided the
+      variance by len(a) - 1 and Glen the covariance by n - 1: kept below as [homma_orig], [saltelli_orig],
+      [glen_orig], records of the defect: an inert dimension got 1/n, resp. -1/(n-1), instead of 0)
      post_process: float32 cast, reshape(masks.shape[1:])         (row-major: identity on flat data)
    kernels.py
      rbf(X, Y, width) = exp(-(X - Y)**2 / (2 * width**2));  binary(X, Y) = 0.5 - (X - Y)**2
@@ -118,12 +124,23 @@ Definition np_var (l : list Qc) : Qc := np_mean (map (fun v => sq (v - np_mean l
 Definition var_unbiased (a : list Qc) : Qc :=
   qsum (map (fun v => sq (v - np_mean a)) a) / (qn (length a) - 1).
 
+(* sum([(v - mu)**2 for v in a]) / len(a) *)
+Definition var_pop (a : list Qc) : Qc :=
+  qsum (map (fun v => sq (v - np_mean a)) a) / qn (length a).
+
 Definition jansen (outputs : list Qc) (n d : nat) : list Qc :=
   let '(a, _, c) := split_abc outputs n d in
   let var := var_unbiased a in
   map (fun i => qsum (map sq (vsub a (nth i c []))) / (two * qn n * var)) (seq 0 d).
 
 Definition homma (outputs : list Qc) (n d : nat) : list Qc :=
+  let '(a, _, c) := split_abc outputs n d in
+  let mu_a := np_mean a in
+  let var := var_pop a in
+  map (fun i => (var - (1 / qn n) * qsum (vmul a (nth i c [])) + sq mu_a) / var) (seq 0 d).
+
+(* before the fix: unbiased variance *)
+Definition homma_orig (outputs : list Qc) (n d : nat) : list Qc :=
   let '(a, _, c) := split_abc outputs n d in
   let mu_a := np_mean a in
   let var := var_unbiased a in
@@ -155,11 +172,29 @@ Definition glen (sqrt : Qc -> Qc) (outputs : list Qc) (n d : nat) : list Qc :=
   let mu_c := map np_mean c in
   let var_a := np_var a in
   let var_c := map np_var c in
+  map (fun i => 1 - (1 / qn n * qsum (vmul (map (fun v => v - mu_a) a)
+                                           (map (fun v => v - nthq mu_c i) (nth i c [])))
+                     / sqrt (var_a * nthq var_c i))) (seq 0 d).
+
+(* before the fix: covariance normalised by 1/(n - 1) *)
+Definition glen_orig (sqrt : Qc -> Qc) (outputs : list Qc) (n d : nat) : list Qc :=
+  let '(a, _, c) := split_abc outputs n d in
+  let mu_a := np_mean a in
+  let mu_c := map np_mean c in
+  let var_a := np_var a in
+  let var_c := map np_var c in
   map (fun i => 1 - (1 / (qn n - 1) * qsum (vmul (map (fun v => v - mu_a) a)
                                                  (map (fun v => v - nthq mu_c i) (nth i c [])))
                      / sqrt (var_a * nthq var_c i))) (seq 0 d).
 
 Definition saltelli (outputs : list Qc) (n d : nat) : list Qc :=
+  let '(a, _, c) := split_abc outputs n d in
+  let mu_a := np_mean a in
+  let var := var_pop a in
+  map (fun i => 1 - ((1 / qn n) * qsum (vmul a (nth i c [])) - sq mu_a) / var) (seq 0 d).
+
+(* before the fix: unbiased variance *)
+Definition saltelli_orig (outputs : list Qc) (n d : nat) : list Qc :=
   let '(a, _, c) := split_abc outputs n d in
   let mu_a := np_mean a in
   let var := var_unbiased a in
